@@ -62,18 +62,22 @@ static std::string xreal_json(const std::string& k, bool neg, long q)
     snprintf(b, sizeof b, "{\"k\":\"%s\",\"neg\":%s,\"q\":%ld}", k.c_str(), neg ? "true" : "false", q);
     return b;
 }
+// finite doubles are integers q on a grid of 2^-10 (exact in binary): fine enough for differences below the interface's
+// default tolerance 0.005, which on this grid admits exactly the differences of at most 5 units (5 * 2^-10 < 0.005 < 6 * 2^-10)
+static const double GRID = 1.0 / 1024.0;
+static const long DEFAULT_TOL_Q = 5;
 static double xreal_value(const std::string& k, bool neg, long q)
 {
     if (k == "nan") return std::numeric_limits<double>::quiet_NaN();
     if (k == "inf") return neg ? -std::numeric_limits<double>::infinity() : std::numeric_limits<double>::infinity();
-    return (double) q * 0.125;
+    return (double) q * GRID;
 }
 static std::string double_json(double d)
 {
     // the value only (no tolerance travels with a returned double): [t, v]
     if (std::isnan(d)) return "{\"t\":\"double\",\"v\":" + xreal_json("nan", false, 0) + "}";
     if (std::isinf(d)) return "{\"t\":\"double\",\"v\":" + xreal_json("inf", d < 0, 0) + "}";
-    double q = d * 8.0;
+    double q = d / GRID;
     if (q != std::floor(q) || std::fabs(q) > 2e9) return "{\"t\":\"double\",\"v\":{\"k\":\"offgrid\",\"neg\":false,\"q\":0}}";
     return "{\"t\":\"double\",\"v\":" + xreal_json("fin", q < 0, (long) q) + "}";
 }
@@ -138,8 +142,9 @@ static bool parse_value(const std::string& enc, PV& v)
     if (f[0] == "D" && f.size() == 7) {
         v.dk = f[1]; v.dneg = f[2] == "1"; v.dq = atol(f[3].c_str());
         v.tk = f[4]; v.tneg = f[5] == "1"; v.tq = atol(f[6].c_str());
-        // tk "dflt": the interface's default tolerance (0.005), which on the 2^-3 grid means "the same value"
-        v.json = "{\"t\":\"double\",\"v\":" + xreal_json(v.dk, v.dneg, v.dq) + ",\"tol\":" + (v.tk == "dflt" ? xreal_json("fin", false, 0) : xreal_json(v.tk, v.tneg, v.tq)) + "}";
+        // tk "dflt": the form without a tolerance (withParameter(name, double) / withDoubleParameters): the interface's default
+        // tolerance 0.005, which on the grid is a tolerance of DEFAULT_TOL_Q units
+        v.json = "{\"t\":\"double\",\"v\":" + xreal_json(v.dk, v.dneg, v.dq) + ",\"tol\":" + (v.tk == "dflt" ? xreal_json("fin", false, DEFAULT_TOL_Q) : xreal_json(v.tk, v.tneg, v.tq)) + "}";
         return true;
     }
     if (f[0] == "O" && f.size() == 3) {
